@@ -8,20 +8,20 @@ IDS = ['C%02d' % i for i in range(1, 21)]
 COMMON_NOTE = ('Trusted: Coq 8.16.1 kernel (vm_compute, no native_compute); OCaml extraction (ExtrOcamlBasic only) cross-checked by '
                'vm_compute; translators in /verif/translate; the Python harness. Modelled, not verified: ')
 CLAIMED = {
- 'C01': ('Coq proof of the symmetric-delete search (candidate completeness via common deletion variant, exact filter); differential run of the extracted model vs symdel/nearest_neighbor',
-         'Theorems C01_* (coq/props/C01.v): for every list of strings over any alphabet and every k the modelled bucket-pairing algorithm returns exactly {(i,j,lev): i<>j, lev<=k}, no pair repeated, duplicates at distance 0, never (i,i); slev is proved to be the optimal edit cost. Unbounded in sizes and k; the tie to nn.py is the correspondence run (exhaustive small alphabets in one call + random clonal repertoires).',
+ 'C01': ('Coq proof of the symmetric-delete search (candidate completeness via common deletion variant, exact filter); deletion-variant generator regenerated from nn._comb_gen and proved equal to the model; differential run of the extracted model vs symdel/nearest_neighbor',
+         'Theorems C01_* (coq/props/C01.v): for every list of strings over any alphabet and every k the modelled bucket-pairing algorithm returns exactly {(i,j,lev): i<>j, lev<=k}, no pair repeated, duplicates at distance 0, never (i,i); slev is proved to be the optimal edit cost. Unbounded in sizes and k. Tie to nn.py: nn._comb_gen is regenerated from the source on every run and proved to yield exactly the model's deletion variants (C01_source_comb_gen, coq/props/C01g.v); the rest by the correspondence run (exhaustive small alphabets in one call + random clonal repertoires).',
          COMMON_NOTE + 'rapidfuzz Levenshtein.distance, Python set/dict/itertools semantics.', 'DESIGN.md section 4 C01'),
  'C02': ('Coq proof: sum c(c-1) over multiplicities = number of ordered coinciding position pairs (cross form: sum of count products), permutation / injective-relabel invariance, row-key join injective under the no-separator guard; pc_n regenerated from stats.py proved equal to the counting definition; exact-fraction differential runs',
          'Theorems C02_* (coq/props/C02.v): for every list over any type with decidable equality the numerator computed the way pc computes it (unique counts) is the number of ordered pairs of distinct positions holding equal elements, the denominator N(N-1); the two-sample form counts cross pairs; invariance under permutation and injective relabelling; 0 <= num <= den; joined row keys coincide iff rows agree in every column when no cell contains the separator (counter-example without the guard kept visible); the regenerated pc_n equals the counting form on multiplicity vectors.',
          COMMON_NOTE + 'numpy.unique / intersect1d grouping, str() of cells injective on the stated cell domain, pandas fillna/astype.', 'DESIGN.md section 4 C02'),
  'C08': ('Coq proof: row-DP weighted Levenshtein = minimum alignment cost for all weights (attained and minimal against the inductive alignment relation), upper bound wd*|a|+wi*|b| (exact storage guard), condensed-index bijection and loop layout for any metric; differential runs vs rapidfuzz / python-Levenshtein / metric classes / pdist / cdist',
-         'Theorems C08_* (coq/props/C08.v): the executable DP is the optimal edit cost with insertion/deletion roles fixed by the alignment relation (a swap is visible), unit weights give Levenshtein, the value is bounded so no wrap occurs below the stated dtype limits, pdist_loop puts f(x_i,x_j) at m*i+j-(i+2)(i+1)/2 for any f and any collection, cdist_loop at [i][j], calc_pdist_vector is squareform of the self cdist, the index map is a bijection onto 0..m(m-1)/2-1.',
+         'Theorems C08_* (coq/props/C08.v): the executable DP is the optimal edit cost with insertion/deletion roles fixed by the alignment relation (a swap is visible), unit weights give Levenshtein, the value is bounded so no wrap occurs below the stated dtype limits, pdist_loop puts f(x_i,x_j) at m*i+j-(i+2)(i+1)/2 for any f and any collection, cdist_loop at [i][j], calc_pdist_vector is squareform of the self cdist, the index map is a bijection onto 0..m(m-1)/2-1; the loop nests of distance.pdist / cdist are regenerated from the source on every run (store-passing encoding) and proved equal to pdist_loop / cdist_loop for all inputs (C08_source_pdist/_cdist, coq/props/C08g.v).',
          COMMON_NOTE + 'rapidfuzz process.cdist result dtype and values (tied by exhaustive small-domain correspondence), scipy squareform(checks=False).', 'DESIGN.md section 4 C08'),
  'C03': ('Coq proof of SymdelDB.lookup and LookupDB.lookup models (edit ball = breadth-first closure, proved exact), history invariance by induction; differential runs incl. database histories',
          'Theorems C03_* (coq/props/C03.v): two-collection symdel and the hash lookup return exactly {(q,r,d): d = lev(query q, ref r) <= k} once each, including q = r and d = 0; the BFS ball holds exactly the strings within k edits; any lookup history leaves later answers equal to a one-shot search.',
          COMMON_NOTE + 'rapidfuzz distances; LookupDB references over the amino-acid alphabet (its documented domain).', 'DESIGN.md section 4 C03'),
- 'C04': ('Coq proof: histogram pre-filter bound (sqdist <= 2k^2 for any bin map), kdtree and hash models exact, hence the three engines agree; differential runs of kdtree/hash_based',
-         'Theorems C04_* (coq/props/C04.v): lev <= k implies squared histogram distance <= 2k^2 for every letter->bin map; the kdtree model (ball query + exact filter) and the hash model return exactly the C01 set; engines are set-equal.',
+ 'C04': ('Coq proof: histogram pre-filter bound (sqdist <= 2k^2 for any bin map), binary64 radius sweep on the regenerated radius expression, kdtree and hash models exact, hence the three engines agree; differential runs of kdtree/hash_based',
+         'Theorems C04_* (coq/props/C04.v): lev <= k implies squared histogram distance <= 2k^2 for every letter->bin map; the kdtree model (ball query + exact filter) and the hash model return exactly the C01 set; engines are set-equal; the float64 radius expression regenerated from nn.py admits 2k^2 for every k in 1..4096 in both comparison forms (C04_radius, coq/props/C04r.v, PrimFloat sweep by vm_compute); the one-edit generator used by the hash ball is regenerated from distance.py and proved equal to the model (coq/props/C12g.v).',
          COMMON_NOTE + 'scipy KDTree.query_ball_point returns all points within the radius it is given (float64 radius sqrt(2)*k); rapidfuzz extract.', 'DESIGN.md section 4 C04'),
  'C06': ('Coq proof over the reals: multinomial factorial moments by induction on N, then field on the formulas regenerated from stats.py; exact-rational correspondence and exact enumeration of the expectation on the implementation',
          'Theorems C06_* (coq/props/C06.v): for all N, K and every probability vector, E[pc_n] = sum p^2, E[pc(a,b)] = sum p q, E[varpc_n] = Var(pc) (N >= 4), where pc_n / varpc_n are the functions generated from the source on this run. A changed coefficient breaks the proof.',
@@ -33,11 +33,11 @@ CLAIMED = {
          'Theorems C10_* (coq/props/C10.v): dense form exact when no pair repeats (duplicates would be summed - shown), shape, the default engine\'s matrix entry formula, every invalid class rejected by the check model.',
          COMMON_NOTE + 'scipy coo_matrix.toarray sums duplicates; container independence is definitional in the model and carried by correspondence (lists, tuples, arrays, Series with 4 index kinds).', 'DESIGN.md section 4 C10'),
  'C11': ('Coq proof: any chunk size >= 1 and any completion order of a modelled Pool.map give the serial result; chunk-size expression regenerated from nn.py proved >= 1; compression independence from the pre-filter theorem; top-m contract of stable sort + firstn; differential runs with real Pool workers',
-         'Theorems C11_* (coq/props/C11.v). The scheduler part is partial: the theorem covers every schedule of the modelled pool; that CPython Pool.map meets the contract and fork inheritance are runtime behaviour exercised (not proved) with real processes.',
+         'Theorems C11_* (coq/props/C11.v). any chunk size >= 1 and any completion order give the serial result, the regenerated chunk-size expression is >= 1, compression independence from the pre-filter theorem, top-m contract, and the regenerated float64 radius admits every on-radius pair (C04_radius re-checked here). The scheduler part is partial: the theorem covers every schedule of the modelled pool; that CPython Pool.map meets the contract and fork inheritance are runtime behaviour exercised (not proved) with real processes.',
          COMMON_NOTE + 'multiprocessing.Pool.map ordered-result contract, fork start method, rapidfuzz extract ordering.', 'DESIGN.md section 4 C11'),
  'C12': ('Coq proof that the one-edit generators (with their duplicate-suppression rules) yield exactly the distance-1 strings, each once; BFS closure / next-nearest / set utilities characterised; list-level differential runs (order and duplicates visible)',
-         'Theorems C12_* (coq/props/C12.v): levenshtein_neighbors model exact and NoDup for any duplicate-free alphabet, hamming_neighbors for any position list, next_nearest = strings within 1..m steps, find_pairs lists each unordered pair once, neighbor numbers, isdist1.',
-         COMMON_NOTE + 'nndist_hamming is compared with a specification-level minimum (its enumeration loops are not modelled); Python generator/set semantics.', 'DESIGN.md section 4 C12'),
+         'Theorems C12_* (coq/props/C12.v): levenshtein_neighbors model exact and NoDup for any duplicate-free alphabet, hamming_neighbors for any position list, next_nearest = strings within 1..m steps, find_pairs lists each unordered pair once, neighbor numbers, isdist1; the enumeration loops of _isdist2_hamming / _isdist3_hamming and the cascade of nndist_hamming are modelled and proved equal to the capped minimum (C12_nndist); the source text of levenshtein_neighbors, hamming_neighbors, _isdist2_hamming, _isdist3_hamming is regenerated into Gallina on every run and proved equal, as lists, to the models (C12_source_*, coq/props/C12g.v).',
+         COMMON_NOTE + 'Python generator/set semantics; nndist_hamming for references over the amino-acid letters (its documented alphabet).', 'DESIGN.md section 4 C12'),
  'C14': ('Coq proof: every engine model with a custom distance keeps a pair iff lev <= k and custom <= max (generic in the distance), TCRdist glue exact for any tables / CDR3 distance, bundled V tables symmetric with zero diagonal by vm_compute on literals regenerated from the CSVs; differential runs with six custom distances and a vendored pwseqdist stand-in',
          'Theorems C14_* (coq/props/C14.v). Partial for TCRdist: real pwseqdist is absent; what is decided is the glue around it (candidate search, table lookup by row allele, chain sums, threshold, empty result).',
          COMMON_NOTE + 'custom distances symmetric with d(x,x)=0 (stated domain); pandas read_csv/get_indexer; the stand-in CDR3 distance.', 'DESIGN.md section 4 C14'),
